@@ -20,6 +20,8 @@ import (
 	"time"
 
 	"github.com/aergoio/aergo-lib/db"
+	"github.com/aergoio/aergo/v2/types"
+	"github.com/aergoio/aergo/v2/types/dbkey"
 	fx "github.com/aergoio/aergo/v2/verif_h/forkx"
 	nk "github.com/aergoio/aergo/v2/verif_h/nodekit"
 	"github.com/aergoio/aergo/v2/verif_h/xplor"
@@ -233,6 +235,16 @@ func (g *golden) deliveryOf(cp crashPoint) int {
 // crashOnce starts a node on the stores of a crash point and applies the oracles.
 // When innerJournal is requested the recovery run itself is journalled and returned.
 func crashOnce(ctx *xplor.Ctx, net nk.Net, sc scen, g *golden, st *nk.Stores, cp crashPoint, journalRecovery bool) (msg string, rec []db.VerifUnit) {
+	// core.init ends the process (logger.Fatal) when the block the latest pointer names cannot be
+	// loaded; that exit cannot be caught in-process, so this one condition is evaluated on the
+	// crashed store before the node is started
+	if lb := st.Chain[string(dbkey.LatestBlock())]; len(lb) > 0 {
+		no := types.BlockNoFromBytes(lb)
+		h := st.Chain[string(types.BlockNoToBytes(no))]
+		if len(h) == 0 || len(st.Chain[string(h)]) == 0 {
+			return fmt.Sprintf("restart impossible: the latest pointer names height %d but the height index has no loadable block there (the node exits with 'failed to load latest block from DB')", no), nil
+		}
+	}
 	dirC, dirS := filepath.Join(nk.BaseDir(), g.name, "chain"), filepath.Join(nk.BaseDir(), g.name, "state")
 	db.VerifRestore(dirC, st.Chain)
 	db.VerifRestore(dirS, st.State)
